@@ -6,6 +6,7 @@ import (
 	"strings"
 
 	"github.com/biogo/biogo/alphabet"
+	"github.com/biogo/biogo/feat"
 	"github.com/biogo/biogo/seq"
 	"github.com/biogo/biogo/seq/alignment"
 	"github.com/biogo/biogo/seq/linear"
@@ -30,6 +31,7 @@ type mCont struct {
 	Alpha  string
 	Rows   []mRow
 	Strand int8 // alignment strand
+	Off    int  // column-stored: the alignment's offset; multi.Multi: the offset the container has recorded (moved by Multi.SetOffset only)
 }
 
 func (m *mCont) hasQ() bool {
@@ -66,14 +68,68 @@ var seqAlphas = map[string]seqAlpha{
 
 var seqAlphaNames = []string{"DNA", "DNAgapped", "DNAredundant", "RNA", "RNAgapped", "RNAredundant"}
 
+// Alphabets without a pairing, for the histories that never complement (C07): the protein alphabet (26 letters) and two
+// case-sensitive ones, so that "up to case" in the consensus clause meets alphabets in which the other case of a valid
+// letter is invalid, or is another letter with an index of its own.
+var (
+	casedUpperAlpha = alphabet.Must(alphabet.NewAlphabet("-ACGTN", feat.DNA, '-', 'N', alphabet.CaseSensitive))
+	casedBothAlpha  = alphabet.Must(alphabet.NewAlphabet("-ACGTacgtNn", feat.DNA, '-', 'n', alphabet.CaseSensitive))
+)
+
+func init() {
+	seqAlphas["Protein"] = seqAlpha{alphabet.Protein, ""}
+	seqAlphas["cased-upper"] = seqAlpha{casedUpperAlpha, ""}
+	seqAlphas["cased-both"] = seqAlpha{casedBothAlpha, ""}
+}
+
+var seqAlphaNamesUnpaired = []string{"DNA", "DNAgapped", "DNAredundant", "RNA", "RNAgapped", "RNAredundant", "Protein", "cased-upper", "cased-both"}
+
+// comp is the nucleotide complement as IUPAC defines it, written out here (not asked of the library's pairing):
+// a<->t (u in the RNA alphabets), c<->g, m<->k, r<->y, b<->v, d<->h; s, w, n, x and the gap stay; case is kept.
 func (m *mCont) comp(l byte) byte {
-	c, _ := m.alpha().(alphabet.Complementor).Complement(alphabet.Letter(l))
-	return byte(c)
+	up := l >= 'A' && l <= 'Z'
+	c := l
+	if up {
+		c += 'a' - 'A'
+	}
+	switch c {
+	case 'a':
+		c = 't'
+		if strings.HasPrefix(m.Alpha, "RNA") {
+			c = 'u'
+		}
+	case 't', 'u':
+		c = 'a'
+	case 'c':
+		c = 'g'
+	case 'g':
+		c = 'c'
+	case 'm':
+		c = 'k'
+	case 'k':
+		c = 'm'
+	case 'r':
+		c = 'y'
+	case 'y':
+		c = 'r'
+	case 'b':
+		c = 'v'
+	case 'v':
+		c = 'b'
+	case 'd':
+		c = 'h'
+	case 'h':
+		c = 'd'
+	}
+	if up {
+		c -= 'a' - 'A'
+	}
+	return c
 }
 
 func (m *mCont) span() (s, e int) {
 	if m.colStored() {
-		return 0, len(m.Rows[0].L)
+		return m.Off, m.Off + len(m.Rows[0].L)
 	}
 	s, e = int(^uint(0)>>1), -int(^uint(0)>>1)-1
 	for _, r := range m.Rows {
@@ -181,7 +237,7 @@ func (m *mCont) snapshot() oSnap {
 		}
 	case m.colStored():
 		o.Len = len(m.Rows[0].L)
-		o.Start, o.End, o.Strand = 0, len(m.Rows[0].L), m.Strand
+		o.Start, o.End, o.Strand = m.Off, m.Off+len(m.Rows[0].L), m.Strand
 		for p := 0; p < len(m.Rows[0].L); p++ {
 			var c, q []byte
 			for _, r := range m.Rows {
@@ -235,6 +291,14 @@ func (m *mCont) snapshot() oSnap {
 		}
 	}
 	return o
+}
+
+// alphaLetters names an alphabet by its letters (messages must not carry addresses).
+func alphaLetters(a alphabet.Alphabet) string {
+	if a == nil {
+		return "<nil>"
+	}
+	return a.Letters()
 }
 
 func strandOf(s seq.Sequence) int8 { return int8(s.CloneAnnotation().Strand) }
@@ -500,7 +564,7 @@ func (m *mCont) build() interface{} {
 			if err != nil {
 				panic("harness: alignment.NewSeq: " + err.Error())
 			}
-			a.Strand = seq.Strand(m.Strand)
+			a.Strand, a.Offset = seq.Strand(m.Strand), m.Off
 			for i, r := range m.Rows {
 				a.SubAnnotations[i].Offset, a.SubAnnotations[i].Strand = r.Start, seq.Strand(r.Strand)
 			}
@@ -517,7 +581,7 @@ func (m *mCont) build() interface{} {
 		if err != nil {
 			panic("harness: alignment.NewQSeq: " + err.Error())
 		}
-		a.Strand = seq.Strand(m.Strand)
+		a.Strand, a.Offset = seq.Strand(m.Strand), m.Off
 		for i, r := range m.Rows {
 			a.SubAnnotations[i].Offset, a.SubAnnotations[i].Strand = r.Start, seq.Strand(r.Strand)
 		}
@@ -534,6 +598,7 @@ func (m *mCont) build() interface{} {
 		if err != nil {
 			panic("harness: multi.NewMulti: " + err.Error())
 		}
+		mm.Offset = m.Off // the recorded offset only: the rows are already where the model has them
 		return mm
 	}
 	panic("harness: unknown kind " + m.Kind)
@@ -569,6 +634,9 @@ func genSeqQuals(rng *rand.Rand, n int) []byte {
 // genCont generates a container of the given kind. paired=true draws letters from the pairing's domain.
 func genCont(rng *rand.Rand, kind string, maxRows, maxLen int, paired bool) *mCont {
 	m := &mCont{Kind: kind, Alpha: seqAlphaNames[rng.Intn(len(seqAlphaNames))]}
+	if !paired {
+		m.Alpha = seqAlphaNamesUnpaired[rng.Intn(len(seqAlphaNamesUnpaired))]
+	}
 	nrows := 1
 	if !m.isLinear() {
 		nrows = 1 + rng.Intn(maxRows)
@@ -613,6 +681,11 @@ func genCont(rng *rand.Rand, kind string, maxRows, maxLen int, paired bool) *mCo
 		if rng.Intn(2) == 0 {
 			m.Strand = 1
 		}
+		// C05 only: the alignment itself sits at an offset (Add and the consensus functions index columns from 0, so
+		// the C07 histories keep their alignments at 0)
+		if paired && rng.Intn(3) != 0 {
+			m.Off = rng.Intn(41) - 20
+		}
 	}
 	return m
 }
@@ -626,7 +699,7 @@ func (m *mCont) brief() map[string]interface{} {
 		}
 		rows = append(rows, s)
 	}
-	return map[string]interface{}{"kind": m.Kind, "alphabet": m.Alpha, "rows": rows, "strand": m.Strand}
+	return map[string]interface{}{"kind": m.Kind, "alphabet": m.Alpha, "rows": rows, "strand": m.Strand, "offset": m.Off}
 }
 
 func snapBrief(o oSnap) string {
